@@ -19,6 +19,12 @@ Definition skip2 (pr : N -> bool) (r : str) : str :=
   | [] => []
   end.
 
+Fixpoint skip_while (pr : N -> bool) (r : str) : str :=
+  match r with
+  | a :: r' => if pr a then skip_while pr r' else r
+  | [] => []
+  end.
+
 Fixpoint escape_count_go (fuel : nat) (s : str) : N :=
   match fuel with
   | O => 0
@@ -29,7 +35,7 @@ Fixpoint escape_count_go (fuel : nat) (s : str) : N :=
           if negb (c =? 92) then 1 + escape_count_go f r
           else match r with
                | [] => 1
-               | e :: r2 => if e =? 120 then 1 + escape_count_go f (skip2 is_xdigit r2)
+               | e :: r2 => if e =? 120 then 1 + escape_count_go f (skip_while is_xdigit r2)
                             else if is_octdigit e then 1 + escape_count_go f (skip2 is_octdigit r2)
                             else 1 + escape_count_go f r2
                end
